@@ -233,6 +233,9 @@ func symMultiStatus(maxResp int) *MultiStatus {
 				if k == 0 {
 					raw, _ := EncodeRawXMLElement(&GetETag{ETag: ETag("tag" + string(rune('0'+i)))})
 					ps.Prop.Raw = append(ps.Prop.Raw, *raw)
+					if vrt.Choose("propstat-has-error-element", 2) == 1 {
+						ps.Error = &Error{Raw: []RawXMLValue{*NewRawXMLElement(xml.Name{Space: "urn:x", Local: "pcond"}, nil, nil)}}
+					}
 				} else {
 					raw, _ := EncodeRawXMLElement(&DisplayName{Name: "name" + string(rune('0'+i))})
 					ps.Prop.Raw = append(ps.Prop.Raw, *raw)
@@ -322,6 +325,8 @@ func VerifH_C14_MultiStatus() {
 			vrt.Assert(errors.As(derr, &he), "DecodeProp failure carries a status code")
 			if has && !okStatus && he != nil {
 				vrt.Assert(he.Code == src.PropStats[0].Status.Code, "DecodeProp failure carries the propstat's status code")
+				var ee *Error
+				vrt.Assert(errors.As(derr, &ee) == (src.PropStats[0].Error != nil), "DecodeProp failure carries the propstat's DAV:error element")
 			}
 			if !respFailed && len(src.PropStats) == 0 && he != nil {
 				vrt.Assert(he.Code == 404 && IsNotFound(derr), "a missing property is a 404")
